@@ -51,6 +51,7 @@ struct State {
   std::map<std::string, uint64_t> classes, excludedKnown, otherFailures;
   std::unordered_set<uint64_t> ntHashes;
   std::vector<std::string> samples; // reservoir
+  std::vector<std::string> timeoutSamples;
   uint64_t sampleSeen = 0, lcg = 88172645463325252ULL;
   std::string firstSample, lastSample;
 
@@ -365,8 +366,12 @@ Outcome runForked(const std::vector<uint32_t> &ch) {
   if (timedOut) {
     kill(pid, SIGKILL);
     waitpid(pid, &status, 0);
+    deserialize(buf, o.v, o.ctx); // keeps the early description
+    o.ctx.labels.clear();
+    o.ctx.nontrivial = false;
     o.inconclusive = true;
     o.v = Verdict::fail("timeout", "case exceeded " + std::to_string(timeout) + " ms");
+    if (S.timeoutSamples.size() < 5) S.timeoutSamples.push_back(o.ctx.desc);
     return o;
   }
   waitpid(pid, &status, 0);
@@ -447,6 +452,9 @@ void writeStats(int violations) {
   for (auto &s : S.samples) ss.push_back(s);
   if (!S.lastSample.empty()) ss.push_back(S.lastSample);
   for (size_t i = 0; i < ss.size(); ++i) f << (i ? ", " : "") << jsonStr(ss[i]);
+  f << "],\n";
+  f << "\"timeout_samples\": [";
+  for (size_t i = 0; i < S.timeoutSamples.size(); ++i) f << (i ? ", " : "") << jsonStr(S.timeoutSamples[i]);
   f << "],\n";
   f << "\"nt_hashes\": [";
   bool first = true;
